@@ -74,7 +74,14 @@ func mkComponent(wf *sp.Workflow, k *toks) *node {
 		tagkey := k.str()
 		up := k.int()
 		upport := k.str()
+		delay := 0
+		if k.more() {
+			delay = k.int()
+		}
 		c := components.NewMapToTags(wf, name, func(ip *sp.FileIP) map[string]string {
+			if delay > 0 {
+				time.Sleep(time.Duration(delay) * time.Millisecond)
+			}
 			return map[string]string{tagkey: filepath.Base(ip.Path())}
 		})
 		c.In().From(nodes[up].out(upport))
